@@ -19,13 +19,33 @@ CONSTANTS Ctxs,    \* context identifiers, 1 is the root context
           Names,   \* attribute names of the Local namespace (strings)
           Boxes    \* identifiers of the mutable objects that get stored (positive integers)
 
+\* ---- the universe of stored objects ------------------------------------------------------------
+\* Object identifiers are fixed names for the following Python objects (harness/locals.py creates
+\* exactly these).  What matters to the property: an object may be *falsy* -- always (0, "", an
+\* empty container) or depending on its state (an object whose __bool__ looks at a field, a
+\* container that is emptied *through the proxy*).  A proxy bound to a falsy object is still
+\* bound: bool(proxy) = bool(object), but _get_current_object(), attribute reads and repr behave
+\* as for any bound object; unbound-ness is never decided by truthiness.
+\*   1, 4 : plain object with a field `val`            (always truthy)
+\*   2    : object with a field `val` whose __bool__ is `val != 0`  (initially falsy)
+\*   3    : list, initially [7, 7]       7 : list, initially []       8 : dict, initially {}
+\*   5    : the int 0                    6 : the str ""
+\* cont[b] is the object's state: the field `val` (1, 2, 4), the length (3, 7, 8), 0 for 5 and 6.
+KindOf(b) == CASE b \in {1, 4} -> "box" [] b = 2 -> "fbox" [] b \in {3, 7} -> "list"
+               [] b = 8 -> "dict" [] b = 5 -> "int" [] OTHER -> "str"
+Init0(b)  == IF b = 3 THEN 2 ELSE 0
+TruthyC(cont, b) == CASE KindOf(b) = "box" -> TRUE
+                      [] KindOf(b) \in {"fbox", "list", "dict"} -> cont[b] # 0
+                      [] OTHER -> FALSE
+
 TOP    == "@top"                 \* proxy kind: stack() -- the top of the LocalStack
 PKinds == Names \cup {TOP}       \* proxy kinds: ns(name) for each name, and stack()
 NoBox  == 0
 
 NsOps      == {"set", "get", "del", "iter", "release"}
 StackOps   == {"push", "pop", "top", "release_stack"}
-ProxyOps   == {"mkproxy", "proxy_read", "proxy_mutate"}
+ProxyOps   == {"mkproxy", "proxy_read", "proxy_mutate", "proxy_pop", "proxy_clear"}
+ObjOps     == {"proxy_mutate", "proxy_pop", "proxy_clear"}     \* forwarded to the bound object
 ReleaseOps == {"release", "release_stack", "cleanup"}
 KnownOps   == NsOps \cup StackOps \cup ProxyOps \cup {"cleanup", "spawn"}
 ReadOps    == {"get", "iter", "top", "proxy_read"}
@@ -39,7 +59,7 @@ InitState(made0) ==
   [alive |-> {1},
    attrs |-> [c \in Ctxs |-> [n \in Names |-> NoBox]],
    stack |-> [c \in Ctxs |-> <<>>],
-   cont  |-> [b \in Boxes |-> 0],
+   cont  |-> [b \in Boxes |-> Init0(b)],
    made  |-> made0]
 
 \* ---- operations -------------------------------------------------------------------------
@@ -65,9 +85,25 @@ Enabled(S, o) ==
        [] o.op \in {"get", "del"}                   -> o.n \in Names
        [] o.op = "push"                             -> o.b \in Boxes
        [] o.op = "mkproxy"                          -> o.k \in PKinds
-       [] o.op \in {"proxy_read", "proxy_mutate"}   -> o.k \in S.made
+       [] o.op \in {"proxy_read"} \cup ObjOps       -> o.k \in S.made
        [] o.op = "spawn"                            -> o.child \in Ctxs \ S.alive
        [] OTHER                                     -> TRUE
+
+\* An operation forwarded by a proxy to the object b it resolved to (b # NoBox): what Python does.
+\*   proxy.val = v : plain objects take it; list / dict / int / str have no such attribute
+\*   proxy.pop()   : list -> drops the last item (IndexError when empty); dict.pop() needs a key
+\*   proxy.clear() : list / dict -> empty
+ObjRet(cont, b, o) ==
+  LET kd == KindOf(b) IN
+  CASE o.op = "proxy_mutate" -> IF kd \in {"box", "fbox"} THEN OkR ELSE ExcR("AttributeError")
+    [] o.op = "proxy_pop"    -> IF kd = "list" THEN (IF cont[b] > 0 THEN OkR ELSE ExcR("IndexError"))
+                                ELSE IF kd = "dict" THEN ExcR("TypeError") ELSE ExcR("AttributeError")
+    [] o.op = "proxy_clear"  -> IF kd \in {"list", "dict"} THEN OkR ELSE ExcR("AttributeError")
+ObjNext(cont, b, o) ==
+  LET kd == KindOf(b) IN
+  CASE o.op = "proxy_mutate" -> IF kd \in {"box", "fbox"} THEN [cont EXCEPT ![b] = o.v] ELSE cont
+    [] o.op = "proxy_pop"    -> IF kd = "list" /\ cont[b] > 0 THEN [cont EXCEPT ![b] = @ - 1] ELSE cont
+    [] o.op = "proxy_clear"  -> IF kd \in {"list", "dict"} THEN [cont EXCEPT ![b] = 0] ELSE cont
 
 \* result of the call
 RetOf(S, o) ==
@@ -77,7 +113,8 @@ RetOf(S, o) ==
     [] o.op = "iter" -> IntR(Cardinality(BoundNames(S, c)))
     [] o.op \in {"pop", "top"} -> IF Len(S.stack[c]) = 0 THEN NoneR ELSE BoxR(TopOf(S.stack[c]))
     [] o.op = "proxy_read"   -> IF Bound(S, c, o.k) # NoBox THEN BoxR(Bound(S, c, o.k)) ELSE ExcR("RuntimeError")
-    [] o.op = "proxy_mutate" -> IF Bound(S, c, o.k) # NoBox THEN OkR ELSE ExcR("RuntimeError")
+    [] o.op \in ObjOps -> IF Bound(S, c, o.k) # NoBox THEN ObjRet(S.cont, Bound(S, c, o.k), o)
+                           ELSE ExcR("RuntimeError")
     [] OTHER -> OkR
 
 \* state after the call
@@ -92,8 +129,8 @@ NextOf(S, o) ==
     [] o.op = "release_stack" -> [S EXCEPT !.stack[c] = <<>>]
     [] o.op = "cleanup" -> [S EXCEPT !.attrs[c] = NoAttrs, !.stack[c] = <<>>]
     [] o.op = "mkproxy" -> [S EXCEPT !.made = @ \cup {o.k}]
-    [] o.op = "proxy_mutate" -> IF Bound(S, c, o.k) # NoBox
-                                THEN [S EXCEPT !.cont[Bound(S, c, o.k)] = o.v] ELSE S
+    [] o.op \in ObjOps -> IF Bound(S, c, o.k) # NoBox
+                           THEN [S EXCEPT !.cont = ObjNext(S.cont, Bound(S, c, o.k), o)] ELSE S
     [] o.op = "spawn" -> [S EXCEPT !.alive = @ \cup {o.child},
                                    !.attrs[o.child] = S.attrs[c],
                                    !.stack[o.child] = S.stack[c]]
@@ -122,7 +159,9 @@ ReleaseIsLocal(S, o, T) ==    \* releasing empties the releasing context only
 ProxyInAccessingContext(S, o, T) ==   \* a proxy acts on the object bound where it is used
   /\ o.op = "proxy_read" =>
        RetOf(S, o) = (IF Bound(S, o.ctx, o.k) = NoBox THEN ExcR("RuntimeError") ELSE BoxR(Bound(S, o.ctx, o.k)))
-  /\ o.op = "proxy_mutate" =>
-       \A b \in Boxes : T.cont[b] # S.cont[b] => b = Bound(S, o.ctx, o.k)
+  /\ o.op \in ObjOps =>
+       /\ \A b \in Boxes : T.cont[b] # S.cont[b] => b = Bound(S, o.ctx, o.k)
+       \* bound (truthy or falsy) <=> the call is forwarded, i.e. no RuntimeError
+       /\ (RetOf(S, o) = ExcR("RuntimeError")) = (Bound(S, o.ctx, o.k) = NoBox)
 ReadsArePure(S, o, T) == o.op \in ReadOps => T = S
 =============================================================================
